@@ -1,6 +1,9 @@
 import ObiVerif.Model.Iter
 import ObiVerif.Lemmas.Reseq
 import ObiVerif.Lemmas.Iter
+import ObiVerif.Lemmas.IterWorker
+import ObiVerif.Lemmas.ReseqSteps
+import ObiVerif.Lemmas.IterMore
 /-!
 # C03 — no record is lost, duplicated or reordered between reader and writer (property theorems)
 
@@ -341,5 +344,318 @@ example : let out := rebatch 3 (filterOn (fun r => r % 2 == 0) 2
     ∀ i (h : i + 1 < out.length), (out[i]).2.length = 3 :=
   pipeline_ok _ _ 2 3 (by decide) (by decide) exV 3 [1, 0, 2] (by decide)
     _ (List.Perm.refl _) _ (List.reverse_perm _)
+
+/-! ## 12. Record-to-slice adapters (`SeqToSliceWorker`, `SeqToSliceConditionalWorker`, `ChainWorkers`)
+and the worker stages built on them (`MakeIWorker`, `MakeIConditionalWorker`)
+
+`g` is the capacity the runtime gives when the output slice is grown; the only thing assumed of it is
+`Grows g` (a full non-empty slice gets strictly more room — `slices.Grow(s, cap(s))` guarantees twice).
+The theorems hold for every such `g`, every fan-out (0 included) of every record and every batch size. -/
+
+/-- `SeqToSliceWorker(worker, false)`: every record produced by the per-record worker is kept, in
+order; a failing record only loses its own results; no panic, no nil record -/
+theorem seqToSlice_keeps_all (g : Nat → Nat) (hg : Grows g) (worker : SeqWorker) (input : List Rec) :
+    seqToSlice g worker false input = .ok (input.flatMap fun s => (worker s).getD []) := by
+  rw [seqToSlice_eq_spec g hg]; simp [sliceSpec, keepOk, filter_true']
+
+/-- a worker that never fails (fan-out `(f s).length`, any value ≥ 0, per record): the adapter is `flatMap` -/
+theorem seqToSlice_flatMap (g : Nat → Nat) (hg : Grows g) (f : Rec → List Rec) (boe : Bool)
+    (input : List Rec) :
+    seqToSlice g (fun s => some (f s)) boe input = .ok (input.flatMap f) := by
+  rw [seqToSlice_eq_spec g hg]
+  simp [sliceSpec, keepOk, filter_true']
+
+/-- `breakOnError`: the batch is refused (`BioSequenceSlice{}, err`) iff one of its records fails -/
+theorem seqToSlice_breakOnError (g : Nat → Nat) (hg : Grows g) (worker : SeqWorker) (input : List Rec) :
+    seqToSlice g worker true input =
+      if input.any (fun s => (worker s).isNone) then .error
+      else .ok (input.flatMap fun s => (worker s).getD []) := by
+  rw [seqToSlice_eq_spec g hg]; simp [sliceSpec, keepOk, filter_true']
+
+/-- `SeqToSliceConditionalWorker` (code as it is): the results of the records satisfying the condition,
+in order; the other records are not delivered -/
+theorem seqToSliceCond_spec (g : Nat → Nat) (hg : Grows g) (cond : Rec → Bool) (worker : SeqWorker)
+    (boe : Bool) (input : List Rec) :
+    seqToSliceCond g cond worker boe input =
+      if boe && (input.filter cond).any (fun s => (worker s).isNone) then .error
+      else .ok ((input.filter cond).flatMap fun s => (worker s).getD []) := by
+  rw [seqToSliceCond_eq_spec g hg]; rfl
+
+/-- `ChainWorkers` is composition: per record `next` is mapped over the results of `worker`
+(failing intermediate records skipped), it never panics, and over a batch it is `flatMap ∘ flatMap` -/
+theorem chainWorkers_spec (g : Nat → Nat) (hg : Grows g) (worker next : SeqWorker) :
+    (∀ s, chainWorkers g worker next s =
+        (worker s).map fun l => l.flatMap fun r => (next r).getD []) ∧
+    (∀ s, chainPanics g worker next s = false) ∧
+    ∀ input : List Rec, (input.flatMap fun s => (chainWorkers g worker next s).getD []) =
+      (input.flatMap fun s => (worker s).getD []).flatMap fun r => (next r).getD [] :=
+  ⟨fun s => chainWorkers_eq g hg worker next s, fun s => chainPanics_false g hg worker next s,
+   fun input => keepOk_chain g hg worker next input⟩
+
+/-- `MakeIWorker(worker, false, n)`: the stage is `workerStage` of the per-record worker — hence by
+`worker_spec_perm`, whatever the order in which the goroutines push, a downstream `SortBatches` delivers
+the batches numbered 0,1,2,… holding every produced record in input order -/
+theorem iWorker_spec (g : Nat → Nat) (hg : Grows g) (worker : SeqWorker) (v : Nat → List Rec) (n : Nat)
+    (ks : List Nat) (hp : ks.Perm (List.range n)) (arr' : List Batch)
+    (hperm : arr'.Perm (workerStage (fun s => (worker s).getD []) (ks.map fun k => (k, v k)))) :
+    iWorker g worker false (ks.map fun k => (k, v k)) =
+      .ok (workerStage (fun s => (worker s).getD []) (ks.map fun k => (k, v k))) ∧
+    Numbered (sortBatches arr') ∧
+    flatten (sortBatches arr') = (inFlat v n).flatMap fun s => (worker s).getD [] := by
+  refine ⟨?_, worker_spec_perm _ v n ks hp arr' hperm⟩
+  unfold iWorker workerStage
+  exact sliceWorkerStage_ok _ (fun l => l.flatMap fun s => (worker s).getD []) false _
+    (fun b _ => seqToSlice_keeps_all g hg worker b.2)
+
+/-- `MakeIWorker(worker, true, n)`: the command is stopped (`log.Fatalf`) iff some record fails; else as above -/
+theorem iWorker_breakOnError (g : Nat → Nat) (hg : Grows g) (worker : SeqWorker) (arr : List Batch) :
+    iWorker g worker true arr =
+      if arr.any (fun b => b.2.any fun s => (worker s).isNone) then .fatal
+      else .ok (workerStage (fun s => (worker s).getD []) arr) := by
+  unfold iWorker
+  split
+  · rename_i h
+    apply sliceWorkerStage_fatal
+    · intro b _; rw [seqToSlice_breakOnError g hg]; split <;> simp
+    · obtain ⟨b, hb, hf⟩ := List.any_eq_true.mp h
+      exact ⟨b, hb, by rw [seqToSlice_breakOnError g hg, if_pos hf]⟩
+  · rename_i h
+    unfold workerStage
+    apply sliceWorkerStage_ok _ (fun l => l.flatMap fun s => (worker s).getD [])
+    intro b hb
+    rw [seqToSlice_breakOnError g hg]
+    have : (b.2.any fun s => (worker s).isNone) = false := by
+      cases hx : (b.2.any fun s => (worker s).isNone) with
+      | false => rfl
+      | true => exact absurd (List.any_eq_true.mpr ⟨b, hb, hx⟩) h
+    simp [this]
+
+/-- `MakeIConditionalWorker(cond, worker, false, n)` -/
+theorem iCondWorker_spec (g : Nat → Nat) (hg : Grows g) (cond : Rec → Bool) (worker : SeqWorker)
+    (arr : List Batch) :
+    iCondWorker g cond worker false arr =
+      .ok (arr.map fun b => (b.1, (b.2.filter cond).flatMap fun s => (worker s).getD [])) := by
+  unfold iCondWorker
+  apply sliceWorkerStage_ok _ (fun l => (l.filter cond).flatMap fun s => (worker s).getD [])
+  intro b _
+  rw [seqToSliceCond_spec g hg]; simp
+
+/-- non-vacuity / the shape of the seeded regression: one record of fan-out 7 in a batch of one record,
+a fan-out 0 record, a failing record, batches arriving out of order (`growMin` doubles the capacity) -/
+example : iWorker growMin (fun s => if s = 12 then none else some ((List.range (s - 6)).map (s * 100 + ·))) false
+      [(1, [13]), (0, [6, 12, 9])] =
+    .ok [(1, [1300, 1301, 1302, 1303, 1304, 1305, 1306]), (0, [900, 901, 902])] := by decide
+
+example : Grows growMin := growMin_grows
+
+/-- the one-shot growth of the seeded change loses records — `growIfFull` must be re-tested per cell:
+with a single doubling a 1-record batch has room for 2 results only -/
+example : storeAll growMin ([none], 0) [100, 101, 102] = some ([some 100, some 101, some 102, none], 3) := by
+  decide
+
+/-! ## 13. "Always terminates": the goroutines and channels of a worker stage followed by `SortBatches`
+
+`Model/ReseqSteps.lean` is the transition system: a producer, `N` worker goroutines sharing the input
+channel (`Split`), the `SortBatches` goroutine (`received` map, `next_to_send`), the three
+`WaitAndClose` closers and the consumer; channels of capacity `cap` (0 = unbuffered, as in the code).
+The theorems hold for every `N ≥ 1`, every `cap ≥ 0`, every order `src` in which the source pushes the
+batches `0..n-1`, and every scheduling (they are about all reachable states / all executions). -/
+
+open ObiVerif.ReseqSteps in
+/-- (i) **safety**: in every reachable state each batch `0..n-1` is at exactly one place (source, a
+channel, a worker, the `received` map, the sorter's hand, delivered) — none lost, none duplicated — and
+what went downstream so far is `0,1,…,next-1` in that order -/
+theorem reseqStage_safety (cap n N : Nat) (hN : 0 < N) (src : List Nat) (hp : src.Perm (List.range n))
+    (s : St) (hr : Reach cap src N s) :
+    (∀ k, cnt s k = if k < n then 1 else 0) ∧ s.delivered ++ s.cout = List.range s.next ∧
+    (s.spc = .done → s.pending = []) :=
+  let h := reach_inv hN hp hr
+  ⟨by simpa using h.cons, by simpa using h.hist, h.pdone⟩
+
+open ObiVerif.ReseqSteps in
+/-- (ii) **progress**: a reachable state in which the consumer has not seen the end of the stream always
+has an enabled step (no deadlock), and every step decreases the ranking function `rank` -/
+theorem reseqStage_progress (cap : Nat) (s : St) (hnf : ¬ Final s) :
+    (∃ s', Step cap s s') ∧ ∀ s', Step cap s s' → rank s' < rank s :=
+  ⟨progress cap s hnf, fun _ st => step_rank st⟩
+
+open ObiVerif.ReseqSteps in
+/-- hence every execution from the initial state has at most `8n + N + 4` steps, an execution that cannot
+be extended has ended (`Final`), some execution does end, and **every** ended execution has delivered the
+batches `0,1,…,n-1` in order with nothing left anywhere.  The order `arrived` in which the sorter got the
+batches is some permutation of `0..n-1`, and the delivery is what the big-step model
+(`Iter.sortBatches` = `Reseq.run`) computes from that arrival order, for any contents `w`. -/
+theorem reseqStage_terminates_delivers (cap n N : Nat) (hN : 0 < N) (src : List Nat)
+    (hp : src.Perm (List.range n)) :
+    (∀ s m, Run cap (init src N) s m → m ≤ 8 * n + N + 4) ∧
+    (∀ s m, Run cap (init src N) s m → (¬ ∃ s', Step cap s s') → Final s) ∧
+    (∃ s m, Run cap (init src N) s m ∧ Final s) ∧
+    ∀ s m, Run cap (init src N) s m → Final s →
+      s.delivered = List.range n ∧ s.arrived.Perm (List.range n) ∧
+      s.todo = [] ∧ s.cin = [] ∧ s.cmid = [] ∧ s.pending = [] ∧ held s.ws = [] ∧
+      ∀ w : Nat → List Rec,
+        s.delivered.map (fun k => ((k, w k) : Batch)) = sortBatches (s.arrived.map fun k => (k, w k)) := by
+  refine ⟨?_, ?_, ?_, ?_⟩
+  · intro s m r
+    have := run_bounded r
+    rw [rank_init, hp.length_eq, List.length_range] at this
+    omega
+  · intro s m _ hns
+    apply Classical.byContradiction
+    intro hnf
+    exact hns (progress cap s hnf)
+  · exact exists_final_run cap _ _ (Nat.le_refl _)
+  · intro s m r hf
+    have hinv := reach_inv hN hp (run_reach Reach.init r)
+    obtain ⟨h1, h2, h3, h4, h5, h6, h7⟩ := final_result hN s hinv hf
+    refine ⟨h1, h2, h3, h4, h5, h6, h7, ?_⟩
+    intro w
+    rw [sort_perm w n s.arrived h2, h1]
+
+open ObiVerif.ReseqSteps in
+/-- non-vacuity: with unbuffered channels and 2 workers, source order 1,0 — a complete hand-scheduled run
+(worker 0 takes batch 1, worker 1 takes batch 0, batch 1 reaches the sorter first and waits in the map) -/
+example : ∃ s m, Run 0 (init [1, 0] 2) s m ∧ Final s ∧ s.delivered = [0, 1] ∧ s.arrived = [1, 0] :=
+  ⟨_, _,
+    Run.step (Step.prodHand _ 1 [0] 0 rfl rfl rfl) <|
+    Run.step (Step.prodHand _ 0 [] 1 rfl rfl rfl) <|
+    Run.step (Step.wHand _ 0 1 rfl rfl rfl) <|
+    Run.step (Step.wHand _ 1 0 rfl rfl rfl) <|
+    Run.step (Step.sHand _ 0 rfl rfl) <|
+    Run.step (Step.sHand _ 1 rfl rfl) <|
+    Run.step (Step.inClose _ rfl rfl rfl) <|
+    Run.step (Step.wFinish _ 0 rfl rfl rfl) <|
+    Run.step (Step.wFinish _ 1 rfl rfl rfl) <|
+    Run.step (Step.midClose _ (by decide) rfl rfl) <|
+    Run.step (Step.sFinish _ rfl rfl rfl) <|
+    Run.step (Step.outClose _ rfl rfl rfl) <|
+    Run.refl _,
+    ⟨rfl, rfl⟩, rfl, rfl⟩
+
+/-! ## 14. The remaining combinators: IFragments, IMergeSequenceBatch, pass-through stages, Load / Count /
+CompleteFileIterator, CopyTee, PairedWith -/
+
+/-- `IFragments`: whatever the order `arr1` in which the cutting goroutines push, the output is numbered
+0,1,2,…, holds the fragments of every record in input order (`frag` = the per-record cut, whose geometry
+is C11's subject) and obeys the batch size -/
+theorem fragments_spec (frag : Rec → List Rec) (size : Nat) (hsize : 0 < size) (v : Nat → List Rec) (n : Nat)
+    (ks : List Nat) (hp : ks.Perm (List.range n)) (arr1 : List Batch)
+    (h1 : arr1.Perm (workerStage frag (sortBatches (ks.map fun k => (k, v k))))) :
+    fragments frag size (ks.map fun k => (k, v k)) =
+      rebatch size (workerStage frag (sortBatches (ks.map fun k => (k, v k)))) ∧
+    let out := rebatch size arr1
+    Numbered out ∧ flatten out = (inFlat v n).flatMap frag ∧
+    (∀ b ∈ out, 0 < b.2.length ∧ b.2.length ≤ size) ∧
+    ∀ i (h : i + 1 < out.length), (out[i]).2.length = size := by
+  refine ⟨rfl, ?_⟩
+  intro out
+  rw [sort_perm v n ks hp] at h1
+  have s0 := input_isStream v n (List.range n) (List.Perm.refl _)
+  have c := ((s0.worker frag).perm h1).rebatch size hsize
+  exact ⟨c.1, c.2.1, c.2.2.1, c.2.2.2⟩
+
+/-- no record vanishes in the cut: every record gives at least one fragment (itself when short) -/
+theorem fragRec_nonempty (len : Rec → Nat) (sub : Rec → Nat → Nat → Rec) (minsize length overlap : Nat)
+    (r : Rec) : fragRec len sub minsize length overlap r ≠ [] := fragRec_ne_nil len sub minsize length overlap r
+
+example : let out := rebatch 2 (workerStage (fun r => [r, r + 100]) (sortBatches ([1, 0, 2].map fun k => (k, exV k)))).reverse
+    Numbered out ∧ flatten out = (inFlat exV 3).flatMap (fun r => [r, r + 100]) ∧
+    (∀ b ∈ out, 0 < b.2.length ∧ b.2.length ≤ 2) ∧
+    ∀ i (h : i + 1 < out.length), (out[i]).2.length = 2 :=
+  (fragments_spec _ 2 (by decide) exV 3 [1, 0, 2] (by decide) _ (List.reverse_perm _)).2
+
+/-- `IMergeSequenceBatch` on non-empty groups (full statement; an empty group is the explicit outcome
+`none`: `Merge` indexes `sequences[0]`): one merged record per group, in arrival order, in batches of
+`batchsize` numbered 0,1,2,… -/
+theorem mergeBatches_spec (merge : List Rec → Rec) (batchsize : Nat) (hsize : 0 < batchsize)
+    (arr : List Batch) (hne : ∀ b ∈ arr, b.2 ≠ []) :
+    ∃ out, mergeBatches merge batchsize arr = some out ∧ Numbered out ∧
+      flatten out = arr.map (fun b => merge b.2) ∧
+      (∀ b ∈ out, 0 < b.2.length ∧ b.2.length ≤ batchsize) ∧
+      ∀ i (h : i + 1 < out.length), (out[i]).2.length = batchsize := by
+  have hany : arr.any (fun b => b.2.isEmpty) = false := by
+    cases hx : arr.any (fun b => b.2.isEmpty) with
+    | false => rfl
+    | true =>
+      obtain ⟨b, hb, he⟩ := List.any_eq_true.mp hx
+      exact absurd (List.isEmpty_iff.mp he) (hne b hb)
+  refine ⟨_, by simp only [mergeBatches, hany]; rfl, ?_⟩
+  exact batchOver_spec batchsize hsize (arr.map fun b => merge b.2)
+
+theorem mergeBatches_empty_group (merge : List Rec → Rec) (batchsize : Nat) (arr : List Batch)
+    (h : ∃ b ∈ arr, b.2 = []) : mergeBatches merge batchsize arr = none := by
+  obtain ⟨b, hb, he⟩ := h
+  have : arr.any (fun b => b.2.isEmpty) = true := List.any_eq_true.mpr ⟨b, hb, by simp [he]⟩
+  simp [mergeBatches, this]
+
+example : ∃ out, mergeBatches (fun l => l.headD 0) 2 [(1, [4, 5]), (0, [7]), (2, [9, 9])] = some out ∧
+    Numbered out ∧ flatten out = [4, 7, 9] ∧ (∀ b ∈ out, 0 < b.2.length ∧ b.2.length ≤ 2) ∧
+    ∀ i (h : i + 1 < out.length), (out[i]).2.length = 2 :=
+  mergeBatches_spec _ 2 (by decide) _ (by decide)
+
+/-- `LimitMemory`, `Speed`, `CopyTee`: every batch once, same number, same records, same order -/
+theorem passThrough_spec (arr : List Batch) :
+    passThrough arr = arr ∧ copyTee arr = (arr, arr) := ⟨rfl, rfl⟩
+
+/-- `Load`, `Count`, `CompleteFileIterator` behind a `SortBatches` (as the readers use them): all the
+records, in input order, once; the single batch is numbered 0 and never empty -/
+theorem load_spec (v : Nat → List Rec) (n : Nat) (ks : List Nat) (hp : ks.Perm (List.range n)) :
+    let sorted := sortBatches (ks.map fun k => (k, v k))
+    load sorted = inFlat v n ∧ countRecs sorted = (inFlat v n).length ∧
+    Numbered (completeFile sorted) ∧ flatten (completeFile sorted) = inFlat v n ∧
+    ∀ b ∈ completeFile sorted, b.2 ≠ [] := by
+  intro sorted
+  have hl : load sorted = inFlat v n := (sort_numbered_flatten v n ks hp).2
+  refine ⟨hl, by simp [countRecs, ← hl, load], ?_⟩
+  unfold completeFile
+  rw [hl]
+  cases hF : inFlat v n with
+  | nil => simp [Numbered, flatten]
+  | cons a t => simp [Numbered, flatten]
+
+/-- `Load` without the upstream sort delivers the records of the batches in ARRIVAL order: same
+multiset, order of the scheduler (the callers that need the order sort first) -/
+theorem load_perm (v : Nat → List Rec) (n : Nat) (ks : List Nat) (hp : ks.Perm (List.range n)) :
+    (load (ks.map fun k => (k, v k))).Perm (inFlat v n) := by
+  simp only [load, flatten_keyed, inFlat]
+  exact hp.flatMap_right v
+
+/-- `PairTo` then `PairedWith`: the forward stream and the stream of mates carry the same batch numbers
+0,1,2,…, batch by batch the same number of records, the i-th forward record's mate is the i-th reverse
+record; forward = first input in order, mates = second input in order -/
+theorem pairedWith_aligned (size : Nat) (hsize : 0 < size)
+    (va : Nat → List Rec) (na : Nat) (ka : List Nat) (hpa : ka.Perm (List.range na))
+    (vb : Nat → List Rec) (nb : Nat) (kb : List Nat) (hpb : kb.Perm (List.range nb))
+    (hlen : (inFlat va na).length = (inFlat vb nb).length) :
+    let out := pairTo size (ka.map fun k => (k, va k)) (kb.map fun k => (k, vb k))
+    (forwardSide out).map (·.1) = List.range out.length ∧
+    (pairedWith out).map (·.1) = (forwardSide out).map (·.1) ∧
+    (pairedWith out).map (·.2.length) = (forwardSide out).map (·.2.length) ∧
+    flatten (forwardSide out) = inFlat va na ∧ flatten (pairedWith out) = inFlat vb nb := by
+  intro out
+  obtain ⟨h1, h2⟩ := pairTo_spec size hsize va na ka hpa vb nb kb hpb hlen
+  refine ⟨?_, ?_, ?_, ?_, ?_⟩
+  · have e : (forwardSide out).map (·.1) = out.map (·.1) := by
+      simp only [forwardSide, List.map_map]; rfl
+    rw [e]; exact h1
+  · simp [forwardSide, pairedWith, List.map_map]
+  · simp [forwardSide, pairedWith, List.map_map]
+  · have : flatten (forwardSide out) = (out.flatMap (·.2)).map (·.1) := by
+      simp [flatten, forwardSide, List.flatMap_map, List.map_flatMap]
+    rw [this]
+    show (List.flatMap (fun x => x.2) (pairTo size _ _)).map (·.1) = _
+    rw [h2, map_fst_zip' _ _ hlen]
+  · have : flatten (pairedWith out) = (out.flatMap (·.2)).map (·.2) := by
+      simp [flatten, pairedWith, List.flatMap_map, List.map_flatMap]
+    rw [this]
+    show (List.flatMap (fun x => x.2) (pairTo size _ _)).map (·.2) = _
+    rw [h2, map_snd_zip' _ _ hlen]
+
+example : let out := pairTo 2 ([1, 0, 2].map fun k => (k, exV k)) ([0, 1].map fun k => (k, exW k))
+    (forwardSide out).map (·.1) = List.range out.length ∧
+    (pairedWith out).map (·.1) = (forwardSide out).map (·.1) ∧
+    (pairedWith out).map (·.2.length) = (forwardSide out).map (·.2.length) ∧
+    flatten (forwardSide out) = inFlat exV 3 ∧ flatten (pairedWith out) = inFlat exW 2 :=
+  pairedWith_aligned 2 (by decide) exV 3 [1, 0, 2] (by decide) exW 2 [0, 1] (by decide) (by decide)
 
 end ObiVerif.Props.C03
